@@ -268,6 +268,56 @@ func (p *c12) copyWhileChanging(x *res, a, b string) {
 			x.viol("second-use-of-a-placeholder", kind, fmt.Sprintf("%s with n=%s :v=%s: the attribute that only stores :v is %s, want %s", kind, a, b, after["lastv"].Canon(), b), map[string]interface{}{"a": a, "b": b, "kind": kind, "got": after["lastv"]})
 		}
 	}
+	// numbers INSIDE a copied document: the copy is made by a path, by list_append or by if_not_exists while the
+	// same request changes (or removes) the number in the ORIGINAL - the copy is not a target, its number stays
+	card := func(n string) val.V { return val.Map(map[string]val.V{"score": val.Num(n), "id": val.Str("c")}) }
+	score := refmodel.Path{{Name: "cards"}, {IsIdx: true, Idx: 0}, {Name: "score"}}
+	lapp := func(l, r *refmodel.UExpr) *refmodel.UExpr { return &refmodel.UExpr{Kind: "append", Kids: []*refmodel.UExpr{l, r}} }
+	nested := map[string]*refmodel.Update{
+		"append-copy+set":    {Actions: []refmodel.Action{{Kind: "SET", Path: refmodel.P("hist"), RHS: lapp(up(refmodel.P("cards")), uv(":e"))}, {Kind: "SET", Path: score, RHS: uv(":v")}}},
+		"set+append-copy":    {Actions: []refmodel.Action{{Kind: "SET", Path: score, RHS: uv(":v")}, {Kind: "SET", Path: refmodel.P("hist"), RHS: lapp(up(refmodel.P("cards")), uv(":e"))}}},
+		"prepend-copy+set":   {Actions: []refmodel.Action{{Kind: "SET", Path: refmodel.P("hist"), RHS: lapp(uv(":e"), up(refmodel.P("cards")))}, {Kind: "SET", Path: score, RHS: uv(":v")}}},
+		"append-copy+remove": {Actions: []refmodel.Action{{Kind: "SET", Path: refmodel.P("hist"), RHS: lapp(up(refmodel.P("cards")), uv(":e"))}, {Kind: "REMOVE", Path: score}}},
+		"append-copy+plus":   {Actions: []refmodel.Action{{Kind: "SET", Path: refmodel.P("hist"), RHS: lapp(up(refmodel.P("cards")), uv(":e"))}, {Kind: "SET", Path: score, RHS: arith("plus", up(score), uv(":v"))}}},
+		"path-copy+set":      {Actions: []refmodel.Action{{Kind: "SET", Path: refmodel.P("hist"), RHS: up(refmodel.P("cards"))}, {Kind: "SET", Path: score, RHS: uv(":v")}}},
+		"ifne-copy+set":      {Actions: []refmodel.Action{{Kind: "SET", Path: refmodel.P("hist"), RHS: &refmodel.UExpr{Kind: "ifne", Path: refmodel.P("cards"), Kids: []*refmodel.UExpr{uv(":e")}}}, {Kind: "SET", Path: score, RHS: uv(":v")}}},
+		"append-twice+set":   {Actions: []refmodel.Action{{Kind: "SET", Path: refmodel.P("hist"), RHS: lapp(up(refmodel.P("cards")), up(refmodel.P("cards")))}, {Kind: "SET", Path: score, RHS: uv(":v")}}},
+	}
+	nnames := []string{}
+	for k := range nested {
+		nnames = append(nnames, k)
+	}
+	sort.Strings(nnames)
+	for _, kind := range nnames {
+		u := nested[kind]
+		it := val.Item{"cards": val.List(card(a), card("7")), "z": val.Str("bystander")}
+		values := val.Item{":v": val.Num(b), ":e": val.List(card("8"))}
+		got, msg, site, after := updateDirect(u.Render(map[string]string{}, rrCanon), nil, it, values)
+		x.r.Evals++
+		x.r.Counters["copy_of_a_document_while_changing"]++
+		if got == "panic" {
+			x.viol("runtime-panic", site, fmt.Sprintf("%s with score=%s :v=%s: panic %s", kind, a, b, msg), map[string]interface{}{"a": a, "b": b, "kind": kind})
+			continue
+		}
+		if got != "ok" {
+			continue // (a sum that does not fit the number range: judged by the arith rules)
+		}
+		pos := 0
+		if kind == "prepend-copy+set" {
+			pos = 1
+		}
+		var cp val.V
+		if h := after["hist"]; h.K == val.KL && len(h.L) > pos && h.L[pos].K == val.KM {
+			cp = h.L[pos].M["score"]
+		}
+		if !val.Equal(cp, val.Num(a)) {
+			sfx := ""
+			if cp.K == val.KN && val.NumEqual(cp.Str, f64str(f64(a))) {
+				sfx = "~float64"
+			}
+			x.viol("copy-of-number"+sfx, "nested/"+kind, fmt.Sprintf("%s with cards[0].score=%s :v=%s: the score inside the copy is %s, want the pre-update value %s (the update targets cards[0].score only)", kind, a, b, cp.Canon(), a), map[string]interface{}{"a": a, "b": b, "kind": kind, "got": after["hist"]})
+		}
+	}
 	names := []string{}
 	for k := range forms {
 		names = append(names, k)
